@@ -188,7 +188,7 @@ func genNegScript(g G, devPct int) NegScript {
 	}
 	hdr := func(kind string) int {
 		if g.Pct(kind+"-dev", devPct) {
-			return []int{HdrWrongRoot, HdrMalformed, HdrClose, HdrStreamError}[g.N(kind, 4)]
+			return []int{HdrWrongRoot, HdrMalformed, HdrClose, HdrStreamError, HdrStreamEnd}[g.N(kind, 5)]
 		}
 		return []int{HdrOK, HdrOKDecl, HdrOKForeignID}[g.N(kind+"-var", 3)]
 	}
@@ -196,10 +196,10 @@ func genNegScript(g G, devPct int) NegScript {
 	s.Header2 = hdr("hdr2")
 	s.Header3 = hdr("hdr3")
 	s.StartTLS = g.N("starttls", 3)
-	s.TLSReply = dev("tlsreply", 5)
+	s.TLSReply = dev("tlsreply", 6)
 	s.Cert = []int{CertGood, CertGood, CertBoth, CertWrongHost, CertUntrusted, CertExpired, CertAbort, CertAltName}[g.N("cert", 8)]
 	s.Mechs = [][]string{{"PLAIN"}, {"PLAIN", "X-OAUTH2"}, {"SCRAM-SHA-1", "PLAIN"}, {"X-OAUTH2"}, {"SCRAM-SHA-1", "ANONYMOUS"}, {}, {"X-OAUTH2", "X-OAUTH2", "DIGEST-MD5", "PLAIN"}}[g.Weighted("mechs", 6, 3, 3, 1, 1, 1, 2)]
-	s.AuthReply = dev("authreply", 6)
+	s.AuthReply = dev("authreply", 7)
 	if s.AuthReply == AuthFailure {
 		s.AuthCond = []string{"not-authorized", "credentials-expired", "temporary-auth-failure", "account-disabled"}[g.N("authcond", 4)]
 	}
@@ -210,8 +210,8 @@ func genNegScript(g G, devPct int) NegScript {
 	if s.Resume == ResumeUnreadable {
 		s.ResumeAlt = g.N("resume-alt", len(ResumeUnreadableReplies))
 	}
-	s.Bind = dev("bind", 8)
-	s.SessionRep = dev("sessionrep", 6)
+	s.Bind = dev("bind", 9)
+	s.SessionRep = dev("sessionrep", 7)
 	s.Enable = 0
 	if g.Pct("enable-dev", devPct) {
 		s.Enable = 2 + g.N("enable", 4)
